@@ -224,6 +224,7 @@ def rule_rollback(ctx, rule='R04.7'):
 
 
 def run(ctx):
+    c02.rule_pair_domains(ctx)                 # R02.8: each pair enters the kick once (a double-counted star term breaks energy conservation)
     rule_rollback(ctx)
     rule_integrator_components(ctx)
     loops = c02.rule_pairs(ctx)                # R02.3 antisymmetry, R02.7 pair indices
